@@ -292,6 +292,19 @@ class RiscV(Machine):
             self.w(self.reg(o[0]), (a << n) if mn == "slli" else (a >> n))
         elif mn == "not":
             self.w(self.reg(o[0]), ~R[self.reg(o[1])])
+        elif mn in ("rori", "ror", "rol", "andn", "orn", "xnor"):
+            # Zbb / Zbkb bit-manipulation instructions, in case a variant of a file selects them
+            a = R[self.reg(o[1])]
+            if mn == "rori":
+                n = self.imm(o[2])
+                if not 0 <= n < self.xlen:
+                    raise EmuError("rotate amount out of range")
+                self.w(self.reg(o[0]), ror(a, n, self.xlen))
+            else:
+                b = R[self.reg(o[2])]
+                n = b & (self.xlen - 1)
+                self.w(self.reg(o[0]), {"ror": ror(a, n, self.xlen), "rol": ror(a, (self.xlen - n) % self.xlen, self.xlen),
+                                        "andn": a & ~b, "orn": a | ~b, "xnor": ~(a ^ b)}[mn])
         elif mn == "mv":
             self.w(self.reg(o[0]), R[self.reg(o[1])])
         elif mn == "li":
@@ -772,6 +785,14 @@ class M68k(Machine):
 
 # =========================================================================== Xtensa (call0 and windowed ABI)
 class Xtensa(Machine):
+    def check_access(self, addr, size, write):
+        # windowed ABI: the top 16 bytes of every frame (just below the caller's stack pointer) are the base save area that the
+        # window overflow / underflow handlers write and read asynchronously: not the routine's to use
+        if getattr(self, "windowed", False) and addr < self.base_save + 16 and addr + size > self.base_save:
+            self.violations.append("%s of %d byte(s) at 0x%x inside the register-window base save area [caller sp - 16, caller sp) of the windowed ABI" % ("store" if write else "load", size, addr))
+            return
+        Machine.check_access(self, addr, size, write)
+
     def __init__(self, text, endian="little"):
         Machine.__init__(self, text)
         self.ENDIAN = endian
@@ -845,6 +866,7 @@ class Xtensa(Machine):
             return self.jump_label(o[0], here)
         elif mn == "entry":
             self.windowed = True
+            self.base_save = (A[self.reg(o[0])] - 16) & 0xFFFFFFFF     # [caller sp - 16, caller sp): a0-a3 of the caller's caller
             A[self.reg(o[0])] = (A[self.reg(o[0])] - self.imm(o[1])) & 0xFFFFFFFF
         elif mn in ("ret", "ret.n", "retw", "retw.n"):
             if mn.startswith("retw"):
